@@ -185,7 +185,7 @@ def run_case(case, record_sites=False):
     from ..trio_run import make_run
 
     run = make_run(case.get("runtime"))(world, pool_cfg, callers, choices=case.get("choices", ()), segs=case.get("segs", ()), epilogue=epilogue,
-                                               policy=case.get("policy"))
+                                               policy=case.get("policy"), bursts=case.get("bursts", ()), late=case.get("late", ()))
     run.scheme = scheme
     run.record_sites = record_sites
     run.result = {}
@@ -458,6 +458,8 @@ def random_cases(draw):
             "choices": draw(st.lists(st.integers(0, 7), max_size=30)), "segs": draw(st.lists(st.sampled_from([0, 1, 3, 10, 100]), max_size=4))}
     if draw(st.integers(0, 3)) == 0:
         case["runtime"] = "trio"
+    case["bursts"] = draw(st.sampled_from([[], [], [], [1], [0, 1], [2, 0, 1]]))
+    case["late"] = draw(st.sampled_from([[], [], [], [1], [0, 1]]))
     n = draw(st.integers(1, 2))
     faults = []
     for _ in range(n):
